@@ -3,6 +3,7 @@ import Driver.C06
 import Driver.C07
 import Driver.C08
 import Driver.C01
+import Driver.Verbs
 namespace Driver
 
 def dispatch (op : String) : Option Handler :=
@@ -19,6 +20,8 @@ def dispatch (op : String) : Option Handler :=
   | "imath" => some C07.imath
   | "f64" => some C07.f64
   | "f2i" => some C07.f2i
+  | "verbs" => some Verbs.verbs
+  | "pair" => some Verbs.pair
   | "rt" => some C01.rt
   | "rd" => some C01.rd
   | "style" => some C01.style
